@@ -73,6 +73,11 @@ impl<R: Read + Seek> ReadBox<&mut R> for TrakBox {
                     "trak box contains a box with a larger size than it",
                 ));
             }
+            if s == 0 {
+                return Err(Error::InvalidData(
+                    "trak box contains a box with size 0",
+                ));
+            }
 
             match name {
                 BoxType::TkhdBox => {
